@@ -48,6 +48,8 @@ type Profile struct {
 	// PStopFalse: percent of plugin steps (with a cancel signal) given a stop condition that is a literal
 	// false spelling: a condition that never fires.
 	PStopFalse int
+	// GuardFaults: percent of enabled conditions that fail to evaluate at run time (division by zero).
+	GuardFaults int
 	// ItemsFromStep: percent of loops (with an earlier plugin step) that run over that step's `its`
 	// output; OptionalItems: percent of those whose items expression is tagged optional.
 	ItemsFromStep int
@@ -229,6 +231,11 @@ func (g *genCtx) genStr(depth int) *Expr {
 }
 
 func (g *genCtx) genBool() *Expr {
+	if !g.item && g.pct(g.prof.GuardFaults, "guard_faults") {
+		// a condition that is well-typed and cannot be evaluated at run time (zero is 0 unless the input
+		// says otherwise): the step it guards must not run
+		return Op(">=", Op(rapid.SampledFrom([]string{"/", "%"}).Draw(g.t, "fault_op"), g.inputInt(), Ref("input", "zero")), Lit(int64(0)))
+	}
 	k := rapid.IntRange(0, 3).Draw(g.t, "bool_kind")
 	switch k {
 	case 0:
@@ -627,8 +634,10 @@ func GenProgram(t *rapid.T, prof *Profile, doc Doc) *Program {
 				// an error-path stage of a step that (in these profiles) never takes it: once the step has
 				// ended another way the field is absent
 				if prof.PBad == 0 && prof.PDeployFail == 0 {
-					stage := rapid.SampledFrom([]string{"crashed", "deploy_failed", "closed"}).Draw(t, "error_path_stage")
-					out := map[string]string{"crashed": "error", "deploy_failed": "error", "closed": "result"}[stage]
+					// (not closed.result: a run that is cancelled closes its steps, and a step that never starts is
+					// closed when the run is torn down - whether that stage occurs is a matter of how the run ends)
+					stage := rapid.SampledFrom([]string{"crashed", "deploy_failed"}).Draw(t, "error_path_stage")
+					out := "error"
 					fields = append(fields, F("wx_"+s.ID, Opt("wait-optional", StepRef(s.ID, stage, out))))
 				}
 			case 0:
